@@ -333,12 +333,23 @@ def realise_expr(item):
         e = coef("P1") * u
     elif term == "outer":
         e = outer(f, f)
+    elif term == "elim":
+        # the first coefficient (piecewise constant) disappears under the gradient, the second one survives
+        k0 = ufl.Coefficient(ufl.FunctionSpace(dom, make_element("DG0", cell, gd)))
+        g2 = ufl.Coefficient(V)
+        e = grad(k0 + g2) + grad(k0)
+    elif term == "fg":
+        e = coef("P1") * f + coef("DG0")
+    elif term == "un":
+        e = u * n
     else:
         raise ValueError(term)
     if pk == "cell":
         pts = EXPR_POINTS[cell]
     elif pk == "facet":
-        pts = EXPR_POINTS[FACET_CELL[cell]][:2]
+        pts = {"interval": [[Fr(1, 4)], [Fr(5, 8)], [Fr(1)]],
+               "triangle": [[Fr(1, 4), Fr(1, 2)], [Fr(1, 8), Fr(1, 4)]],
+               "quadrilateral": [[Fr(1, 4), Fr(1, 2)], [Fr(1), Fr(1, 8)]]}[FACET_CELL[cell]]     # not symmetric under the facet's symmetries
     else:
         el2 = basix.create_element(basix.ElementFamily.P, basix.CellType[cell], 2, basix.LagrangeVariant.equispaced)
         pts = [[Fr(float(c)).limit_denominator(64) for c in p] for p in el2.points]
@@ -379,6 +390,9 @@ def realise_tp(item):
         form = inner(ufl.Coefficient(V), v) * dx
     elif term == "withds":
         form = inner(u, v) * dx + inner(u, v) * ds
+    elif term == "twodegrees":
+        # two quadrature degrees in one cell integral (both polynomial, both exact)
+        form = inner(u, v) * dx(degree=2 * deg) + ufl.Coefficient(ufl.FunctionSpace(dom, tp(1))) * inner(u, v) * dx(degree=2 * deg + 2)
     else:
         raise ValueError(term)
     return {"form": form, "exact_ok": True, "case": t}
@@ -446,7 +460,12 @@ def realise_c05(item):
 
     dA = dx(metadata=custom_md(cell, var))
     dF = ds(metadata=custom_md(FACET_CELL[cell], var)) if cell != "interval" else ds
-    if var % 5 == 4:
+    if var % 6 == 5 and cell != "interval":
+        # several interior-facet groups after a cell group: every group has its own doubled offsets
+        from ufl import avg, dS
+        form = (sc(f[0]) * sc(f[1]) * v * dA + sc(f[0])("+") * sc(f[1])("-") * avg(v) * dS(1)
+                + sc(f[2])("-") * sc(f[1])("+") * k0 * avg(v) * dS(2) + sc(f[1]) * v * dF)
+    elif var % 5 == 4:
         # a constant that vanishes in preprocessing (source term of the differentiated functional) while others
         # survive: the descriptor and the kernels must both keep counting it (original constant order)
         u = ufl.TrialFunction(f[1].ufl_function_space())
@@ -490,3 +509,22 @@ def realise_underint(item):
     dq = dx(degree=q) if item["ui"].get("how", "degree") == "degree" else dx(metadata={"quadrature_degree": q})
     form = {0: f * f * dq, 1: f * inner(f, v) * dq, 2: f * inner(u, v) * dq}[rank]
     return {"form": form, "exact_ok": False, "case": item["ui"]}
+
+
+def realise_thdiv(item):
+    """Taylor-Hood space with a term that couples the components of the vector sub-element (div-div)."""
+    ensure_repo_on_path()
+    import basix.ufl as bu
+    import ufl
+    from ufl import div, dx, inner
+
+    cell = item["th"]["cell"]
+    td = TDIM[cell]
+    dom = ufl.Mesh(bu.element("Lagrange", cell, 1, shape=(td,)))
+    V = ufl.FunctionSpace(dom, make_element("TH", cell, td))
+    u, v = ufl.TrialFunction(V), ufl.TestFunction(V)
+    a_, p_ = ufl.split(u)
+    b_, q_ = ufl.split(v)
+    dX = dx(metadata=custom_md(cell, item["th"].get("rule", 0)))
+    form = (inner(div(a_), div(b_)) + inner(p_, q_) + inner(a_, b_)) * dX
+    return {"form": form, "exact_ok": True, "case": item["th"]}
